@@ -62,9 +62,9 @@ Definition noreentry {I} (c : code) (s : state I) : bool :=
 Definition ok_succ (ct : cert) (s' : astate) : bool :=
   match cert_at ct (pc s') with Some a => st_eqb a s' | None => false end.
 
-Definition obs_ok (c : code) (t : table) (o : observation unit) : bool :=
+Definition obs_ok (v : pyver) (c : code) (t : table) (o : observation unit) : bool :=
   let '(running, lasti, st, tr) := o in
-  tres_ok (trickery c t running lasti st) (expected tr).
+  tres_ok (trickery v c t running lasti st) (expected tr).
 
 (* ---- referents mode (C20): the over-approximation demanded of a suspended frame ---- *)
 Fixpoint subseqb (a b : list nat) : bool :=
@@ -77,7 +77,7 @@ Fixpoint nodupb (l : list nat) : bool :=
   match l with [] => true | x :: r => negb (mem_nat x r) && nodupb r end.
 Definition is_exiting_ph {I} (e : tent I) : bool := phase_eqb (t_phase e) Exiting.
 
-Definition ref_ok (c : code) (t : table) (o : observation unit) : bool :=
+Definition ref_ok (v : pyver) (c : code) (t : table) (o : observation unit) : bool :=
   let '(_, lasti, st, tr) := o in
   let N := map fst (exits_on_stack st) in
   subseqb (map t_site (filter is_active tr)) N
@@ -85,7 +85,7 @@ Definition ref_ok (c : code) (t : table) (o : observation unit) : bool :=
   && nodupb N
   && nodupb (map t_site tr)
   && forallb (fun e : tent unit => Bool.eqb (t_async e) (site_async c (t_site e))) tr
-  && match exiting c t lasti, filter is_exiting_ph tr with
+  && match exiting v c t lasti, filter is_exiting_ph tr with
      | ESome asy _, [e] => Bool.eqb asy (t_async e)
      | ENone, [] => true
      | _, _ => false
@@ -95,39 +95,39 @@ Definition ref_ok (c : code) (t : table) (o : observation unit) : bool :=
    frames (C02), suspended frames in referents mode (C20) *)
 Inductive ckind := KSusp | KRun | KRef.
 
-Definition obs_check (k : ckind) (c : code) (t : table) (o : observation unit) : bool :=
+Definition obs_check (v : pyver) (k : ckind) (c : code) (t : table) (o : observation unit) : bool :=
   let '(running, _, _, _) := o in
   match k with
-  | KSusp => running || obs_ok c t o
-  | KRun => negb running || obs_ok c t o
-  | KRef => running || ref_ok c t o
+  | KSusp => running || obs_ok v c t o
+  | KRun => negb running || obs_ok v c t o
+  | KRef => running || ref_ok v c t o
   end.
 
 Definition obs_sel (k : ckind) (o : observation unit) : bool :=
   let '(running, _, _, _) := o in
   match k with KSusp | KRef => negb running | KRun => running end.
 
-Definition check_pc (k : ckind) (c : code) (t : table) (ct : cert) (p : nat) : bool :=
+Definition check_pc (v : pyver) (k : ckind) (c : code) (t : table) (ct : cert) (p : nat) : bool :=
   match cert_at ct p with
   | None => true
   | Some a =>
       noreentry c a
-      && match trans c t tt a with
+      && match trans v c t tt a with
          | Some succs => forallb (ok_succ ct) succs
          | None => false
          end
-      && forallb (obs_check k c t) (obs c a)
+      && forallb (obs_check v k c t) (obs c a)
   end.
 
-Definition checkk (k : ckind) (c : code) (t : table) (ct : cert) : bool :=
-  forallb (check_pc k c t ct) (seq 0 (length c))
+Definition checkk (v : pyver) (k : ckind) (c : code) (t : table) (ct : cert) : bool :=
+  forallb (check_pc v k c t ct) (seq 0 (length c))
   && match cert_at ct 0 with Some a => st_eqb a (mk 0 [] []) | None => false end.
 
-Definition check (c : code) (t : table) (ct : cert) : bool := checkk KSusp c t ct && checkk KRun c t ct.
+Definition check (v : pyver) (c : code) (t : table) (ct : cert) : bool := checkk v KSusp c t ct && checkk v KRun c t ct.
 
 (* ---- diagnostics for the harness (not used by any theorem): which pcs fail, and why ---- *)
-Definition bad_pcs (c : code) (t : table) (ct : cert) : list nat :=
-  filter (fun p => negb (check_pc KSusp c t ct p && check_pc KRun c t ct p)) (seq 0 (length c)).
+Definition bad_pcs (v : pyver) (c : code) (t : table) (ct : cert) : list nat :=
+  filter (fun p => negb (check_pc v KSusp c t ct p && check_pc v KRun c t ct p)) (seq 0 (length c)).
 
 Definition count_obs (k : ckind) (c : code) (ct : cert) : nat :=
   length (flat_map (fun p => match cert_at ct p with
@@ -136,11 +136,11 @@ Definition count_obs (k : ckind) (c : code) (ct : cert) : nat :=
                    (seq 0 (length c))).
 
 (* ---- case types of the generated correspondence files (harness/wm_cases.py) ---- *)
-Definition cert_case := (code * table * cert)%type.
+Definition cert_case := (pyver * code * table * cert)%type.
 Definition cert_mismatches (k : ckind) (cases : list cert_case) : list nat :=
-  false_indices 0 (map (fun x : cert_case => let '(c, t, ct) := x in checkk k c t ct) cases).
+  false_indices 0 (map (fun x : cert_case => let '(v, c, t, ct) := x in checkk v k c t ct) cases).
 Definition cert_nontrivial (k : ckind) (cases : list cert_case) : nat :=
-  count_true (map (fun x : cert_case => let '(c, t, ct) := x in 1 <=? count_obs k c ct) cases).
+  count_true (map (fun x : cert_case => let '(_, c, t, ct) := x in 1 <=? count_obs k c ct) cases).
 
 (* static: what the Python functions returned at given code units *)
 Definition exres_eqb (a b : exres) : bool :=
@@ -159,21 +159,21 @@ Definition winfo_agrees (w : option winfo) (py : option (list (nat * bool))) : b
       && forallb (fun e : nat * (nat * bool) => mem_nat (fst e) (map fst l)) w
   | _, _ => false
   end.
-Definition static_case := (code * table * list (nat * exres) * option (list (nat * bool)))%type.
+Definition static_case := (pyver * code * table * list (nat * exres) * option (list (nat * bool)))%type.
 Definition static_ok (x : static_case) : bool :=
-  let '(c, t, ex, wi) := x in
-  forallb (fun y : nat * exres => exres_eqb (exiting c t (fst y)) (snd y)) ex
-  && winfo_agrees (with_info c t) wi.
+  let '(v, c, t, ex, wi) := x in
+  forallb (fun y : nat * exres => exres_eqb (exiting v c t (fst y)) (snd y)) ex
+  && winfo_agrees (with_info v c t) wi.
 Definition static_mismatches (cases : list static_case) : list nat :=
   false_indices 0 (map static_ok cases).
 Definition static_nontrivial (cases : list static_case) : nat :=
-  count_true (map (fun x : static_case => let '(_, _, ex, _) := x in
+  count_true (map (fun x : static_case => let '(_, _, _, ex, _) := x in
                      existsb (fun y : nat * exres => negb (exres_eqb (snd y) ENone)) ex) cases).
 (* diagnostics *)
 Definition static_bad (x : static_case) : list (nat * exres) :=
-  let '(c, t, ex, wi) := x in
-  map (fun y : nat * exres => (fst y, exiting c t (fst y)))
-      (filter (fun y : nat * exres => negb (exres_eqb (exiting c t (fst y)) (snd y))) ex).
+  let '(v, c, t, ex, wi) := x in
+  map (fun y : nat * exres => (fst y, exiting v c t (fst y)))
+      (filter (fun y : nat * exres => negb (exres_eqb (exiting v c t (fst y)) (snd y))) ex).
 
 (* join: the REAL _contexts_active_by_trickery run on a certified observation, with the ctypes
    reads of inspect_frame replaced by the certificate's abstract stack (bound exit methods of
@@ -192,23 +192,23 @@ Definition view_eqb (a b : view) : bool :=
               option_eqb Nat.eqb (fst (fst x)) (fst (fst y)) && Bool.eqb (snd (fst x)) (snd (fst y))
               && Bool.eqb (snd x) (snd y)) a b.
 Definition join_obs := (bool * nat * list (val unit) * option (option view) * option (list (nat * nat)) * nat)%type.
-Definition join_case := (code * table * list join_obs)%type.
-Definition join_obs_ok (c : code) (t : table) (o : join_obs) : bool :=
+Definition join_case := (pyver * code * table * list join_obs)%type.
+Definition join_obs_ok (v : pyver) (c : code) (t : table) (o : join_obs) : bool :=
   let '(running, lasti, st, pyres, pyblocks, pytrim) := o in
-  option_eqb (option_eqb view_eqb) (tres_view (trickery c t running lasti st)) pyres
+  option_eqb (option_eqb view_eqb) (tres_view (trickery v c t running lasti st)) pyres
   && option_eqb (list_eqb (fun x y : nat * nat => (fst x =? fst y) && (snd x =? snd y))) (blocks t lasti) pyblocks
   && (trim_depth t lasti =? pytrim).
-Definition join_ok (x : join_case) : bool := let '(c, t, l) := x in forallb (join_obs_ok c t) l.
+Definition join_ok (x : join_case) : bool := let '(v, c, t, l) := x in forallb (join_obs_ok v c t) l.
 Definition join_mismatches (cases : list join_case) : list nat := false_indices 0 (map join_ok cases).
 Definition join_nontrivial (cases : list join_case) : nat :=
-  count_true (map (fun x : join_case => let '(_, _, l) := x in
+  count_true (map (fun x : join_case => let '(_, _, _, l) := x in
      existsb (fun o : join_obs => let '(_, _, _, r, _, _) := o in
                 match r with Some (Some (_ :: _)) => true | _ => false end) l) cases).
 Definition join_bad (x : join_case) : list (nat * option (option view) * option (list (nat * nat)) * nat) :=
-  let '(c, t, l) := x in
+  let '(v, c, t, l) := x in
   map (fun o : join_obs => let '(running, lasti, st, _, _, _) := o in
-         (lasti, tres_view (trickery c t running lasti st), blocks t lasti, trim_depth t lasti))
-      (filter (fun o => negb (join_obs_ok c t o)) l).
+         (lasti, tres_view (trickery v c t running lasti st), blocks t lasti, trim_depth t lasti))
+      (filter (fun o => negb (join_obs_ok v c t o)) l).
 
 (* live: states of real frames observed by the runtime legs (f_lasti and the ground truth logged
    by instrumented managers, with-sites identified through co_positions) must be observations
